@@ -29,7 +29,7 @@ fi
 $CC $LANGF $COMMON -fsanitize=thread $DEFS $INC $SEMREN -c $REPO/platform/linux/src/nsync_semaphore_futex.c -o $OUT/sem_futex.o & pids+=($!)
 $CC $LANGF $COMMON -fsanitize=thread $DEFS $INC -c $V/sim/platform/src/sim_platform.c -o $OUT/sim_platform.o & pids+=($!)
 # the interpreter: NOT tsan-instrumented
-$CC $LANGF $COMMON $DEFS $INC -Wall -Wno-unused-function -c $V/sim/interp/interp.c -o $OUT/interp.o & pids+=($!)
+$CC $LANGF $COMMON $DEFS $INC -Wall -Wno-unused-function -Werror=implicit-function-declaration -c $V/sim/interp/interp.c -o $OUT/interp.o & pids+=($!)
 rc=0
 for p in "${pids[@]}"; do wait $p || rc=1; done
 [ $rc = 0 ] || { echo "build_sim: compile failed"; exit 2; }
